@@ -149,9 +149,19 @@ func (s *summary) walk(v reflect.Value) {
 
 func buildSummary(toks []string) string {
 	r := bld.Run(toks)
-	if r.Class != "ok" {
-		return r.Class
+	suffix := ""
+	if r.Aliased {
+		suffix = " ALIASED:previous-builder-call"
 	}
+	if r.Class != "ok" {
+		return r.Class + suffix
+	}
+	return guardPanic(func() string {
+		return buildSummaryOK(r)
+	}) + suffix
+}
+
+func buildSummaryOK(r bld.Result) string {
 	return guardPanic(func() string {
 		pdu, err := ngap.Decoder(r.Octets)
 		if err != nil {
